@@ -91,6 +91,9 @@ FIXED = [   # named forms of the polynomial fragment that must always be in the 
     ['hpar', 'u', '*', 'vy', '*'],                     # parametric coefficient field
     ['f', 'val', 'v', '*'],                            # load vector
     ['g', 'gv', 'inner'],                              # vector load
+    ['u', 'v', '*', 'c', 'two', '*', '/'],                       # division by a product of constants: u v / (c * 2)
+    ['gu', 'gv', 'inner', 'c', 'c', '*', 'three', '+', '/'],    # ... by a sum: grad u . grad v / (c c + 3)
+    ['three', 'c', 'half', '*', '/', 'u', '*', 'vy', '*'],      # constant quotient as a coefficient: 3 / (c/2) u v_y
     ['B', 'T', 'B', 'matmat', 'gu', 'matvec', 'gv', 'inner'],   # (B^T B) grad u . grad v: wide x tall matrix product
     ['B', 'B', 'T', 'matmat', 'tr', 'u', '*', 'v', '*'],        # tr(B B^T) u v: tall x wide
 ]
